@@ -1,3 +1,4 @@
+#define FRGV_LIVE_COUNT
 /* Harness support for the seq unit. */
 unsigned frgv_assert_hook_hits;
 #define FRGV_CANARY() __CPROVER_assert(0, "canary: end of harness reachable")
@@ -43,6 +44,8 @@ void h_vec_ops(void)
 		else if (op == 3 || op == 5) { size_t ns = (op == 3) ? rn + 2 : rn / 2; vec_resize_0(&v, ns);     /* grow by 2 / shrink to half */
 			for (size_t q = rn; q < ns; q++) ref[q] = 0; rn = ns; }
 		else if (op == 4) { vec_clear(&v); rn = 0; }
+		else if (op == 6 && 2 * v._capacity + 1 <= REFMAX) { size_t ns = 2 * v._capacity + 1; vec_resize_0(&v, ns);          /* grow past twice the capacity in one step */
+			for (size_t q = rn; q < ns; q++) ref[q] = 0; if (ns > rn) rn = ns; else rn = ns; }
 		CHECK_SEQ(vec_size(&v), v._elements, v._capacity, "vector");
 	}
 	FRGV_CANARY();
@@ -60,6 +63,7 @@ void h_vec_ops(void)
 	__CPROVER_assert(vec_size(&m) == 1 && m._elements[0].v == val && m._elements[0].live == 1, "assignment replaces the content");
 	vec_dtor(&m); vec_dtor(&c);
 	vec_dtor(&v);
+	FRGV_NONE_LIVE();
 }
 
 #define SV_CONT(s) ((s)->_capacity <= 4 ? (struct frgv_tracked *)(s)->_array._stor[0].buffer : (s)->_elements)
@@ -73,6 +77,8 @@ void h_svec_ops(void)
 		else if (op == 1 && rn < REFMAX) { svec_emplace_back__int_R(&v, &val); ref[rn++] = val; }
 		else if (op == 2 && rn > 0) { svec_pop_back(&v); rn--; }
 		else if (op == 3 || op == 4) { size_t ns = (op == 3) ? rn + 3 : rn / 2; svec_resize(&v, ns); for (size_t q = rn; q < ns; q++) ref[q] = 0; rn = ns; }
+		else if (op == 5 && 2 * v._capacity + 1 <= REFMAX) { size_t ns = 2 * v._capacity + 1; svec_resize(&v, ns);          /* grow past twice the capacity in one step */
+			for (size_t q = rn; q < ns; q++) ref[q] = 0; rn = ns; }
 		if (rn > 0) { size_t ix = nondet_size_t(); __CPROVER_assume(ix < rn);
 			__CPROVER_assert(svec_op_index_0(&v, ix)->v == ref[ix] && svec_front_0(&v)->v == ref[0] && svec_back_0(&v)->v == ref[rn - 1] &&
 			                 svec_begin_0(&v) + rn == svec_end_0(&v) && !svec_empty(&v), "small_vector accessors"); }
@@ -81,6 +87,7 @@ void h_svec_ops(void)
 	}
 	FRGV_CANARY();
 	svec_dtor(&v);
+	FRGV_NONE_LIVE();
 }
 
 void h_dyn_ops(void)
@@ -98,6 +105,7 @@ void h_dyn_ops(void)
 	__CPROVER_assert(dyn_size(&m) == n && (n == 0 || m.elements_[ix].v == (int)ix + 7), "assignment copies");
 	FRGV_CANARY();
 	dyn_dtor(&m); dyn_dtor(&c); dyn_dtor(&d);
+	FRGV_NONE_LIVE();
 }
 
 void h_stk_ops(void)
@@ -113,6 +121,7 @@ void h_stk_ops(void)
 	}
 	FRGV_CANARY();
 	vec_dtor(&s._container);
+	FRGV_NONE_LIVE();
 }
 
 /* ---- intrusive_list and list: enumerated operation sequences over 5 nodes (class B) */
@@ -168,4 +177,5 @@ void h_list_ops(void)
 	}
 	FRGV_CANARY();
 	list_dtor(&l);      /* destroying a non-empty list must destroy and free every item (leak check) */
+	FRGV_NONE_LIVE();
 }
